@@ -9,4 +9,14 @@ CONSTANTS
   Shapes = {"default", "first", "last"}
   DepKindPatterns <- GenDepKinds
   LabelPatterns <- GenLabels
+  PropOutputs <- PropOutputs4
+  PropTxStates <- TxStates
+  PropDepOptions = {"absent", "b1", "b2", "other"}
+  PropWrongAll = FALSE
+  PropMainVals = {13, 1000003}
+  PropMaxKeys = 3
+  PropScripts = {"rA", "rB", "rC"}
+  PropReqVals = {4, 9}
+  PropFees = {5}
+  PropShapes = {"default", "last"}
 INVARIANTS EmitAll
